@@ -21,6 +21,7 @@ THOROUGH_CONFIGS = ["nodefault"]
 
 
 def run(ck, ctx):
+    C.adapter_census(ck, ctx, "budget", ("work::", "task::", "process_posix::"))
     # a failed command must give back its pool slot and its pending count, or steps that are not
     # downstream of the failure can never run
     from . import statemachine as SM
